@@ -93,8 +93,9 @@ def build(args):
             dc = cio.build_chain(cz, c, order=order, rng=rng)
             before = json.dumps(dc.to_dict(), default=repr, sort_keys=True)
             Sc = [cz.names[s] for s in S]
-            stable_arg = rng.choice([Sc, tuple(Sc), set(Sc)]) if Sc else rng.choice([(), []])
-            fl = dc.flatten(stable_particles=stable_arg)
+            stable_arg = rng.choice([Sc, tuple(Sc), set(Sc), frozenset(Sc), dict.fromkeys(Sc).keys()]) if Sc else rng.choice([(), []])
+            # by keyword or as the only positional argument
+            fl = dc.flatten(stable_particles=stable_arg) if rng.random() < 0.7 else dc.flatten(stable_arg)
             top = fl.decays[fl.mother]
             obs["fs"] = sorted([cz.rname(k), v] for k, v in top.daughters.items() if v > 0)
             used = cio.factorise(cz, top.bf)
